@@ -815,6 +815,8 @@ class Interp:
 
     def call_native(self, f, args, kw):
         self.stats['native_calls'] += 1
+        if f in (np.float64, np.float32) and len(args) == 1 and not kw and isinstance(args[0], Poison):
+            return args[0]            # converting a value read out of bounds does not use it yet
         if has_sym(args) or has_sym(tuple(kw.values())):
             qn = getattr(f, '__qualname__', getattr(f, '__name__', ''))
             if self.tags and qn in self.LOWERING:
